@@ -5,6 +5,10 @@
 
 use sycamore::prelude::*;
 
+#[path = "../../native/src/util.rs"]
+mod util;
+mod engine;
+
 /// DOM utilities for the verification engines.
 pub mod domutil {
     pub use web_sys::verif::{
@@ -367,7 +371,49 @@ fn selftest_hydrate() {
     println!("selftest-hydrate OK");
 }
 
+/// `--cases-file F` (repeatable) / `--only-cases`, as in harness/native
+pub fn corpus_lines(args: &util::Args) -> (Vec<String>, bool) {
+    let mut lines = vec![];
+    let mut i = 0;
+    while i < args.extra.len() {
+        if args.extra[i] == "--cases-file" {
+            for l in std::fs::read_to_string(&args.extra[i + 1]).unwrap().lines() {
+                if !l.trim().is_empty() && !l.starts_with('#') { lines.push(l.to_string()); }
+            }
+            i += 1;
+        }
+        i += 1;
+    }
+    (lines, args.extra.iter().any(|x| x == "--only-cases"))
+}
+
 fn main() {
+    let arg = std::env::args().nth(1).unwrap_or_default();
+    if arg == "dom" || arg == "view" || arg == "hydrate" {
+        let mut a = std::env::args().skip(2);
+        let mut args = util::Args { engine: arg.clone(), tier: "quick".into(), seed: 0, out: "out".into(), extra: vec![] };
+        while let Some(x) = a.next() {
+            match x.as_str() {
+                "--tier" => args.tier = a.next().unwrap(),
+                "--seed" => args.seed = a.next().unwrap().parse().unwrap(),
+                "--out" => args.out = a.next().unwrap().into(),
+                _ => args.extra.push(x),
+            }
+        }
+        std::panic::set_hook(Box::new(|info| {
+            if util::IN_CATCH.with(|c| c.get()) == 0 { eprintln!("harness bug (panic outside a case): {info}"); }
+        }));
+        match arg.as_str() {
+            "dom" => engine::run(&args),
+            _ => { eprintln!("engine not built yet"); std::process::exit(2) }
+        }
+        return;
+    }
+    main_selftests()
+}
+
+fn main_selftests() {
+
     let arg = std::env::args().nth(1).unwrap_or_default();
     match arg.as_str() {
         "selftest-dom" => selftest_dom(),
